@@ -1028,6 +1028,22 @@ class STensor:
     def reciprocal(self):
         return STensor.from_flat([to_rat(x).inv() for x in self.flat()], self.shape, FLOAT)
 
+    def reciprocal_(self):
+        for i in self.idx:
+            self.store[i] = to_rat(self.store[i]).inv()
+        return self
+
+    def _fn_(self, name):
+        for i in self.idx:
+            self.store[i] = sfunc(name, self.store[i])
+        return self
+
+    def exp_(self): return self._fn_("exp")
+    def log_(self): return self._fn_("log")
+    def tanh_(self): return self._fn_("tanh")
+    def sin_(self): return self._fn_("sin")
+    def cos_(self): return self._fn_("cos")
+
     def add_(self, o, alpha=1):
         return self._ew_(o, lambda x, y: to_rat(x) + to_rat(y) * alpha)
 
